@@ -5,13 +5,19 @@ AsyncChannel, as translated from the current source (Gen_Lock.v), is one lock se
 exit; (B) all interleavings of N such paths: mutual exclusion, lock free at the end, no deadlock;
 (C) reactive callers over any device with failures anywhere: mutual exclusion, serialisability
 (wire trace = whole operations in acquisition order, every caller's outcome = its own sequential
-outcome), lock released on every outcome, no deadlock, channel_lock off is a no-op.
+outcome), lock released on every outcome, no deadlock, channel_lock off is a no-op; (D) the lock object
+across re-opens of the connection: nothing but __init__ binds channel_lock (ast), so one holder at a
+time through any re-opens / retries; refuted for a lock recreated by open().
 tie: Gen_Lock.v regenerated on every run + correspondence `lock-schedules`: the REAL Channel (threads)
 and AsyncChannel (tasks) under a controlled scheduler (c19_sched.py), schedules enumerated, failures and
-timeouts injected; every observed trace is replayed through the model's executable step function
-(vm_compute, Lock.check_run) and judged by an independent oracle."""
+timeouts injected, callers cancelled / timed out with the connection staying up and the others going on
+(whatever task the ended operation left behind keeps being scheduled and observed), connection lost +
+re-opened + operation retried while others are queued; every observed trace is replayed through the
+model's executable step function (vm_compute, Lock.check_run; re-open runs also Lock.oreplay) and judged
+by an independent oracle."""
 import json
 import os
+import random
 import time
 
 from . import common
@@ -90,19 +96,31 @@ def solo(scn, c):
 # --------------------------------------------------------------------------------------------------
 # the independent oracle (knows nothing of the Coq model)
 # --------------------------------------------------------------------------------------------------
-def io_runs(events):
-    """callers of the successive wire events, collapsed into runs"""
-    runs = []
+def attempt_of(events):
+    """per event: which attempt of its caller it belongs to (a caller that re-opens and retries runs two operations)"""
+    att, out = {}, []
     for e in events:
+        if e[0] == "reopen":
+            att[e[1]] = att.get(e[1], 0) + 1
+        out.append(att.get(e[1], 0) if len(e) > 1 else 0)
+    return out
+
+
+def io_runs(events):
+    """operations (caller, or [caller, attempt] for a retry) of the successive wire events, collapsed into runs"""
+    runs = []
+    att = attempt_of(events)
+    for i, e in enumerate(events):
         if e[0] in ("w", "r", "x"):
-            if not runs or runs[-1] != e[1]:
-                runs.append(e[1])
+            key = e[1] if not att[i] else "%d/retry" % e[1]
+            if not runs or runs[-1] != key:
+                runs.append(key)
     return runs
 
 
 def first_fault_index(events):
     for i, e in enumerate(events):
-        if e[0] in ("x", "cancel", "timeout", "close"):
+        if e[0] in ("x", "cancel", "kill", "timeout", "close"):
             return i
     return None
 
@@ -144,7 +162,9 @@ def oracle(scn, obs):
     runs = io_runs(ev)
     if len(runs) != len(set(runs)):
         bad.append(("interleaved", "wire events of different callers interleave: order of callers on the wire %s" % runs))
-    # the lock protocol as observed: transport events only by the holder
+    # the lock protocol as observed, over the WHOLE log (also after an operation has failed / been cancelled
+    # and ended: a task it left behind is I/O by a caller that holds nothing): transport events only by the
+    # holder, one holder at a time whichever lock object the channel refers to at the moment
     holder = None
     for e in ev:
         if e[0] == "acq":
@@ -156,8 +176,11 @@ def oracle(scn, obs):
         elif e[0] in ("w", "r", "x") and holder != e[1]:
             bad.append(("io-outside-lock", "caller %d touches the transport while the lock is held by %s" % (e[1], holder)))
             break
+    for c, kind in obs.get("pending_io", []):
+        bad.append(("io-outside-lock", "caller %d's operation has ended and a task it left behind is still inside transport.%s()" % (c, kind)))
     # each caller gets exactly its own output, and puts exactly its own operation on the wire
     strict = strict_callers(scn, obs)
+    att = attempt_of(ev)
     for c in range(n):
         res = obs["results"].get(str(c))
         if res is None:
@@ -165,7 +188,14 @@ def oracle(scn, obs):
                 bad.append(("no-result", "caller %d never ended" % c))
             continue
         s = solo(scn, c)
-        mine = [(e[0], e[2]) for e in ev if e[0] in ("w", "r") and e[1] == c]
+        last = max([att[i] for i, e in enumerate(ev) if len(e) > 1 and e[1] == c] or [0])
+        if last:
+            # the attempts before the re-open failed: each is a prefix of the solo operation
+            for a in range(last):
+                part = [(e[0], e[2]) for i, e in enumerate(ev) if e[0] in ("w", "r") and e[1] == c and att[i] == a]
+                if part != s["script"][:len(part)]:
+                    bad.append(("wrong-wire", "caller %d's failed attempt is not a prefix of its solo operation" % c))
+        mine = [(e[0], e[2]) for i, e in enumerate(ev) if e[0] in ("w", "r") and e[1] == c and att[i] == last]
         if strict[c] == "full":
             if res != s["result"]:
                 bad.append(("wrong-result", "caller %d got %r, alone it gets %r" % (c, res, s["result"])))
@@ -191,8 +221,15 @@ def model_trace(scn, obs):
     n = len(scn["callers"])
     holding, pending, acquired, gone = set(), set(), set(), set()
     lock = scn["lock"]
+    vid = {}                       # caller -> its id in the model: a retry after a re-open is a further caller of the model
+    nv = n
     for e in obs["events"]:
         k, c = e[0], e[1]
+        if k == "reopen":
+            vid[c] = nv
+            nv += 1
+            continue
+        c = vid.get(c, c)
         if k == "acq":
             out.append(("EAcq", c)); holding.add(c); acquired.add(c)
         elif k in ("w", "r"):
@@ -203,10 +240,12 @@ def model_trace(scn, obs):
             if not lock and c not in acquired:
                 out.append(("EAcq", c)); holding.add(c); acquired.add(c)
             pending.add(c)
-        elif k == "cancel":
+        elif k in ("cancel", "kill") or (k == "timeout" and scn["stack"] == "async"):
+            # (a timeout / cancellation delivered to a caller in the lock queue shows as its own "cancel" event;
+            #  the thread-pool timeout does not interrupt the worker: how its operation ends is seen at its release)
             if c in holding:
                 pending.add(c)
-            elif c not in acquired:
+            elif c not in acquired and k == "cancel":
                 out.append(("EGiveUp", c)); gone.add(c)
         elif k == "rel":
             out.append(("EFault" if c in pending else "ERel", c)); holding.discard(c); gone.add(c)
@@ -228,11 +267,32 @@ def coq_script(script):
     return coq_list(["%s %s" % ("IW" if k == "w" else "IR", coq_bytes(bytes.fromhex(h))) for k, h in script])
 
 
+def retried(obs):
+    """callers that re-opened the connection, in the order of their re-opens"""
+    return [e[1] for e in obs["events"] if e[0] == "reopen"]
+
+
 def strict_callers(scn, obs):
     """callers whose wire events must be those of their solo run: everybody when nothing fails; with a
     failure, the callers that ended before it (a failed operation may leave output behind for the
-    later ones) and the failing callers themselves (prefix)"""
+    later ones) and the failing callers themselves (prefix).  Re-open scenarios (a lost connection, the
+    failing caller brings it back and retries): the retry itself and every operation that took the
+    lock after the re-open run on a fresh session and must be whole."""
     ev = obs["events"]
+    if retried(obs):
+        ro = [i for i, e in enumerate(ev) if e[0] == "reopen"]
+        ff = first_fault_index(ev)
+        out = {}
+        for c in range(len(scn["callers"])):
+            acq = [i for i, e in enumerate(ev) if e[0] == "acq" and e[1] == c]
+            end = [i for i, e in enumerate(ev) if e[0] == "end" and e[1] == c]
+            if c in retried(obs):
+                out[c] = "full" if retried(obs).count(c) == 1 and len(ro) == 1 else "free"
+            elif (end and end[0] < ff) or (acq and len(ro) == 1 and acq[0] > ro[0]):
+                out[c] = "full"
+            else:
+                out[c] = "free"
+        return out
     ff = first_fault_index(ev)
     clean = all(f["kind"] == "boom" and f.get("at") == 0 and not f.get("sticky", True) for f in scn.get("faults", []))
     ended = {e[1]: i for i, e in enumerate(ev) if e[0] == "end"}
@@ -247,9 +307,18 @@ def strict_callers(scn, obs):
 def case_term(scn, obs):
     strict = strict_callers(scn, obs)
     scripts = []
+    att = attempt_of(obs["events"])
+    rt = retried(obs)
     for c in range(len(scn["callers"])):
-        if strict[c] == "free":
+        if strict[c] == "free" and c not in rt:
             scripts.append([(e[0], e[2]) for e in obs["events"] if e[0] in ("w", "r") and e[1] == c])
+        else:
+            scripts.append(solo(scn, c)["script"])       # (a failed first attempt: the model checks the prefix)
+    for j, c in enumerate(rt):
+        # the retry after the j-th re-open is caller n+j of the model
+        nth = rt[:j + 1].count(c)
+        if strict[c] == "free":
+            scripts.append([(e[0], e[2]) for i, e in enumerate(obs["events"]) if e[0] in ("w", "r") and e[1] == c and att[i] == nth])
         else:
             scripts.append(solo(scn, c)["script"])
     tr = model_trace(scn, obs)
@@ -262,6 +331,30 @@ Open Scope N_scope.
 Definition chk (c : bool * list script * list ev) : bool :=
   let '(en, scripts, tr) := c in check_run en scripts tr.
 """
+
+
+OHEADER = """From Verif Require Import Bytes Lock.
+Open Scope nat_scope.
+Definition ochk (c : nat * list oev) : bool :=
+  match oreplay false (oinit (fst c)) (snd c) with Some cf => Nat.eqb (holders cf) 0 | None => false end.
+"""
+
+
+def reopen_term(scn, obs):
+    """the run as a trace of Lock.v layer D (lock identity across re-opens): the channel is opened once
+    before the callers start; a caller binds to the channel's lock object when it enters its lock section"""
+    tr = ["OOpen"]
+    for e in obs["events"]:
+        k, c = e[0], e[1]
+        if k == "acq":
+            tr += ["OArrive %d" % c, "OAcq %d" % c]
+        elif k in ("w", "r", "x"):
+            tr.append("OIo %d" % c)
+        elif k == "rel":
+            tr.append("ORel %d" % c)
+        elif k == "reopen":
+            tr += ["OOpen", "OAgain %d" % c]
+    return "(%d, %s)" % (len(scn["callers"]), coq_list(tr))
 
 
 # --------------------------------------------------------------------------------------------------
@@ -325,6 +418,55 @@ def fault_variants(scn, rng, thorough):
     return out
 
 
+def io_points(scn, c=0):
+    """(all transport calls, the reads among them) of caller c's solo operation"""
+    sc = solo(scn, c)["script"]
+    return list(range(len(sc))), [i for i, (k, _) in enumerate(sc) if k == "r"]
+
+
+def pick_points(points, rng, every):
+    """every point, or: the last one (the whole operation but its end has happened) and a random inner one"""
+    if every or len(points) <= 2:
+        return list(points)
+    return sorted(set([points[-1], rng.choice(points[1:-1])]))
+
+
+def ended_early_variants(scn, rng, every):
+    """(i) caller 0's operation is ended from outside at a point of its operation while the connection stays
+    up, the other callers go on: asyncio — the task is cancelled (at a transport read / in the lock queue) or
+    its timeout_ops elapses with NO_TERMINATE_ON_TIMEOUT; threads — timeout_ops elapses with NO_TERMINATE_ON_TIMEOUT"""
+    out = []
+    allp, reads = io_points(scn, 0)
+    if scn["stack"] == "async":
+        for k in pick_points(reads, rng, every):
+            out.append(({"faults": [{"caller": 0, "at": k, "kind": "cancel"}]}, "cancel@%d" % k))
+        for k in ([rng.choice(reads[len(reads) // 2:])] if not every else reads):
+            out.append(({"faults": [{"caller": 0, "at": k, "kind": "timeout"}], "timeouts": {"0": 1000}, "no_terminate": True},
+                        "timeout-noterm@%d" % k))
+        last = len(scn["callers"]) - 1
+        if every or rng.randrange(4) == 0:
+            out.append(({"faults": [{"caller": last, "kind": "cancel_lockwait"}]}, "cancel-lockwait"))
+    else:
+        for k in (allp if every else [rng.choice(allp[len(allp) // 2:])]):
+            out.append(({"faults": [{"caller": 0, "at": k, "kind": "timeout"}], "timeouts": {"0": 1000}, "no_terminate": True},
+                        "timeout-noterm@%d" % k))
+    return out
+
+
+def reopen_variants(scn, rng, every):
+    """(ii) the connection is lost at a transport call of caller 0 (sticky: everything fails from then on);
+    caller 0 re-opens it and runs its operation again while the others are queued on the lock / arrive"""
+    allp, _ = io_points(scn, 0)
+    return [({"faults": [{"caller": 0, "at": k, "kind": "raise"}]}, "reopen@%d" % k)
+            for k in (allp if every else [rng.choice(allp[1:])])]
+
+
+def with_retry(scn, c=0):
+    s = json.loads(json.dumps(scn))
+    s["callers"][c]["retry"] = True
+    return s
+
+
 def with_faults(scn, upd):
     s = json.loads(json.dumps(scn))
     s.update(json.loads(json.dumps(upd)))
@@ -376,6 +518,7 @@ def run(rep):
     effort = 2 if tie_broken else 1            # a broken obligation: search harder for a failing input
     budget = (540 if thorough else 130)        # seconds of exploration (the unchanged tree needs about a quarter)
     cases, terms = [], []
+    ocases, oterms = [], []
     dist = {"scenarios": 0, "runs": 0, "by_stack": {"sync": 0, "async": 0}, "by_callers": {}, "by_fault": {},
             "by_op": {k: 0 for k in OPS}, "exhaustive_scenarios": 0, "sampled_scenarios": 0,
             "lock_off_runs": 0, "lock_off_interleaved": 0, "verdicts": {}, "max_schedule_len": 0,
@@ -427,6 +570,9 @@ def run(rep):
             if obs["verdict"] is None:
                 terms.append(case_term(scn, obs))
                 cases.append({"scenario": scn, "choices": ch, "label": label, "oracle_bad": bool(bad)})
+                if label == "reopen" and scn["lock"]:
+                    oterms.append(reopen_term(scn, obs))
+                    ocases.append(cases[-1])
             if len(rep.samples) < 3 and len(scn["callers"]) > 1 and multi > 2:
                 rep.sample({"scenario": {k: scn[k] for k in ("stack", "lock", "chunk", "callers", "faults")}, "choices": ch,
                             "events": [e for e in obs["events"]][:40], "results": obs["results"]})
@@ -466,6 +612,34 @@ def run(rep):
                 for chunk, variant in ((0, 0), (9, 1)) if (thorough or (OPS.index(a) + OPS.index(b)) % 2 == 0) else ((0, 0),):
                     scn = make_scenario(stack, True, [a, b], chunk=chunk, variant=variant)
                     do_scenario(scn, "none", 600 * effort, 40 * effort)
+    # F6: an operation ended from outside with the connection staying up (task cancelled / NO_TERMINATE timeout) at
+    # a point of the operation, the other callers go on; output in several reads.  The observer (transport events
+    # only by the lock holder) runs over the whole log: whatever a failed operation leaves behind (a shielded /
+    # detached reader) is scheduled like a caller until the run ends.
+    # F7: connection lost, the failing caller re-opens it (transport.open + channel.open) and retries while the
+    # others are queued on the lock or arrive: one holder at a time whichever lock object the channel refers to.
+    every = thorough or tie_broken
+    rng_main, rng = rng, random.Random("C19-ended-reopen-%s" % rep.seed)   # (own stream: derived from the seed only)
+    for stack in stacks:
+        firsts = list(OPS) if (stack == "async" or every) else [rng.choice(OPS)]
+        for a in firsts:
+            scn = make_scenario(stack, True, [a, rng.choice(OPS)], chunk=rng.choice([5, 7, 9]), variant=1)
+            for upd, label in ended_early_variants(scn, rng, every):
+                do_scenario(with_faults(scn, upd), label.split("@")[0], 300 * effort, 20 * effort)
+            scn = with_retry(make_scenario(stack, True, [a, rng.choice(OPS)], chunk=rng.choice([0, 7]), variant=rng.randrange(2)))
+            for upd, label in reopen_variants(scn, rng, every):
+                do_scenario(with_faults(scn, upd), "reopen", 300 * effort, 20 * effort)
+        if every:
+            for _ in range(4):
+                kinds = [rng.choice(OPS) for _ in range(3)]
+                scn = make_scenario(stack, True, kinds, chunk=rng.choice([0, 7]), variant=1)
+                fv = ended_early_variants(scn, rng, False)
+                upd, label = rng.choice(fv)
+                do_scenario(with_faults(scn, upd), label.split("@")[0], 150, 40)
+                scn = with_retry(scn)
+                upd, label = rng.choice(reopen_variants(scn, rng, False))
+                do_scenario(with_faults(scn, upd), "reopen", 150, 40)
+    rng = rng_main
     # F2: failures and timeouts — exhaustive schedules per placement
     pairs = [(a, b) for a in OPS for b in OPS]
     rng.shuffle(pairs)
@@ -510,8 +684,21 @@ def run(rep):
 
     # the model's opinion
     t_explored = time.time()
-    bad_ix, log = common.eval_cases(rep.workdir, "cases_c19", HEADER, terms, "chk", shard=300)
+    bad_ix, log = common.eval_cases(rep.workdir, "cases_c19", HEADER, terms, "chk", shard=max(300, -(-len(terms) // common.JOBS)))
+    obad_ix, olog = common.eval_cases(rep.workdir, "cases_c19_reopen", OHEADER, oterms, "ochk", shard=4000)
     t_model = time.time()
+    if obad_ix is None:
+        rep.broken.append("correspondence reopen-lock-identity (model evaluation failed)")
+        rep.notes.append(olog)
+    else:
+        oshown = [ocases[i] for i in obad_ix if not ocases[i]["oracle_bad"]]
+        for c in oshown[:3]:
+            rep.notes.append("layer D (one lock object across re-opens) rejects an observed trace the oracle accepts: %s choices %s"
+                             % (json.dumps(c["scenario"]), c["choices"]))
+        if oshown:
+            rep.broken.append("correspondence reopen-lock-identity: model rejects %d observed traces the oracle accepts" % len(oshown))
+    rep.coverage["correspondence_reopen"] = {"suite": "reopen-lock-identity", "cases": len(oterms),
+                                             "model_disagreements": None if obad_ix is None else len(obad_ix)}
     rep.coverage["correspondence"] = {"suite": "lock-schedules", "cases": len(terms), "distribution": dist,
                                       "model_disagreements": None if bad_ix is None else len(bad_ix),
                                       "oracle_failures": len(violations), "search_effort": effort}
@@ -523,8 +710,12 @@ def run(rep):
                                    "outside any lock section (outside the property's four operations)"]
     rep.rule = ("scenario = stack x 2..4 callers each one of get_prompt/send_input/send_input_and_read/send_inputs_interact "
                 "(own marker per caller) x read chunking x failure (none | k-th transport call of a caller raises, sticky or clean | "
-                "timeout at a parked read/write, closing or NO_TERMINATE | timeout while waiting for the lock); every transport call, "
-                "lock wait and caller start is a scheduler decision; DFS over all decisions (exhaustive for every 2-caller scenario), "
+                "timeout at a parked read/write, closing or NO_TERMINATE | timeout while waiting for the lock | asyncio task cancelled at a "
+                "read / in the lock queue | connection lost + re-open (channel.close, transport.open, channel.open) and retry by the failing caller; "
+                "cancellation / NO_TERMINATE timeout / loss at every point of the operation in the thorough tier or when a tie is broken, at sampled "
+                "points — always one after the whole operation but its end — in the quick tier); "
+                "every transport call, lock wait, caller start and re-open is a scheduler decision, tasks left behind by an ended "
+                "operation are scheduled until the run ends; DFS over all decisions (exhaustive for every 2-caller scenario), "
                 "seeded random schedules where the DFS bound is hit; distinct = (scenario, schedule); non-trivial = >= 2 callers and "
                 ">= 1 decision with more than one option")
     for sig, text, rp in violations[:6]:
@@ -603,15 +794,31 @@ MANIFEST = {
             "and every caller's outcome = those of the sequential run), schedule_independent, lock_released (any outcome frees the lock, the "
             "next caller proceeds), no_deadlock, disabled_is_noop (+ interleaving reachable with the lock off); timeout_unblocks (the timeout of a "
             "holder stalled on a silent device frees the lock) proved where the timeout ends the operation, the full statement REFUTED for thread "
-            "pool + NO_TERMINATE_ON_TIMEOUT (known finding C19-thread-noterm-stalled-holder, replayed on the real code). Tie: the real Channel (threads) "
+            "pool + NO_TERMINATE_ON_TIMEOUT (known finding C19-thread-noterm-stalled-holder, replayed on the real code). (D) lock identity across "
+            "re-opens: callers bind to the lock object the channel refers to when they enter their section, `channel.open()` may happen at any time; "
+            "Gen_Lock.v says (ast over the whole class bodies) that nothing but __init__ binds channel_lock, hence at most one holder and transport "
+            "events only by that holder through any number of re-opens, failures and retries (reopen_mutual_exclusion); the statement for an "
+            "arbitrary open() REFUTED (lock recreated on open: the caller queued on the old object and the retry on the new one hold together). Tie: the real Channel (threads) "
             "and AsyncChannel (tasks) run 2-4 concurrent callers of get_prompt/send_input/send_input_and_read/send_inputs_interact under a "
             "controlled scheduler (every transport call, lock wait and start is a decision; all schedules of every 2-caller scenario, DFS+random "
-            "beyond), with injected transport failures, timeouts and a device that goes silent (real timeout_wrapper: thread pool / wait_for); every trace is replayed "
-            "through the model's step function by vm_compute (check_run, proved sound) and judged by an independent oracle (no interleaving on "
-            "the wire, each caller's result and wire events = its solo run, lock free at the end, no deadlock).",
+            "beyond), with injected transport failures, timeouts and a device that goes silent (real timeout_wrapper: thread pool / wait_for), with a caller's "
+            "task cancelled at a read / in the lock queue or timed out under NO_TERMINATE_ON_TIMEOUT while the others go on over the same connection "
+            "(any task the ended operation left behind — shielded / detached readers — is scheduled like a caller and observed until the run ends), and with "
+            "the connection lost, re-opened (transport.open + channel.open) and the operation retried by the failing caller while others are queued on the "
+            "lock (every lock object ever bound to channel_lock is instrumented; a waiter stays on the object it waits for); every trace is replayed "
+            "through the model's step function by vm_compute (check_run, proved sound; a retry is a further caller of the model; re-open runs also through "
+            "layer D's oreplay) and judged by an independent oracle (no interleaving on the wire — per operation, a retry is its own operation —, each "
+            "caller's result and wire events = its solo run, lock free at the end, no deadlock, one holder at a time over all lock objects, and no "
+            "transport call outside a lock section EVER: performed or still pending when the run ends, by the caller or by anything it left behind).",
     "note": "Partial in this sense: threading.Lock / asyncio.Lock themselves, contextlib's generator protocol and the interpreter are observed, "
             "not proved (the instrumented lock only delegates acquire(False)/locked()/release() to the lock the channel created; which waiter "
-            "gets a free lock is a scheduler choice, a superset of both lock implementations). The shape translation over-approximates control "
+            "gets a free lock is a scheduler choice, a superset of both lock implementations); the channel under test is an instance of a subclass of the "
+            "real class whose only addition is a __setattr__ wrapping any lock object bound to channel_lock. Tasks left behind by an ended operation "
+            "(orphaned readers) are outside the Coq model: the model has no such step, so it rejects those traces, and the verdict on them is the oracle's "
+            "(oracle-only). Layer D abstracts operations to acquire / transport event / release and `open()` to its effect on the attribute; the re-open "
+            "of the scripted transport starts a fresh session (pending output of the old one dropped). Cancellation of a caller is an asyncio fault "
+            "(threads cannot be cancelled; their analogue is the NO_TERMINATE timeout, whose worker finishes the operation before the caller returns). "
+            "The shape translation over-approximates control "
             "flow and is syntactic (aliasing of the transport or of an I/O method aborts it). Timeouts: the thread-pool mechanism runs the "
             "operation — and takes the lock — on a worker; with NO_TERMINATE_ON_TIMEOUT the worker carries the whole operation through before the "
             "caller sees ScrapliTimeout, and over a silent device it never ends and keeps the lock (known finding, shared root with C07-thread-noterm-join); its clock (`scrapli.decorators.wait`) and the event loop's clock are driven by "
